@@ -1432,7 +1432,7 @@ func genInput(r *lib.Rng, edge bool) Input {
 		// nested relation joins: Joins("Boss").Joins("Boss.Target")
 		var single []string
 		for _, n := range f.nestedOf(in.Rel) {
-			if rels[n].Single {
+			if rels[n].Single && !rels[n].NoJoin {
 				single = append(single, n)
 			}
 		}
